@@ -837,6 +837,11 @@ fn start_incarnation(
         } else {
             Box::pin(task.run_agent())
         }
+    } else if k.connector {
+        let lifecycle = super::dynmodel::DynLifecycle { truth: truth.clone() };
+        let dyn_model = AgentModel::new(swimos_connector::ConnectorAgent::default, lifecycle);
+        let task = AgentRouteTask::new(&dyn_model, descriptor, channels, stop_rx, config, reporting);
+        Box::pin(task.run_agent())
     } else if k.persistent {
         let store = RecordingStore::new(durable.clone());
         let task = AgentRouteTask::new(&model, descriptor, channels, stop_rx, config, reporting);
